@@ -60,6 +60,12 @@ type c19FbCase struct {
 	// again, at another address) and these operations follow: they must act on the framebuffer
 	// the driver has now, and leave the previous mapping alone
 	PostOps []c19Op `json:"post_ops,omitempty"`
+	// Font2Seed (non-zero): after Ops the font is replaced by another one with the same glyph
+	// height and number of bytes per glyph row - other bitmaps (expanded from this seed) and,
+	// if Font2W is non-zero, another glyph width - and Ops run once more: every cell must show the
+	// glyph of the font that is active then
+	Font2Seed uint64 `json:"font2_seed,omitempty"`
+	Font2W    uint32 `json:"font2_w,omitempty"`
 	Ops    []c19Op `json:"ops"`
 }
 
@@ -464,6 +470,23 @@ func c19FbRun(c c19FbCase) (*vlib.Failure, c19OpStats) {
 	if f := runOps(c.Ops, ""); f != nil {
 		return f, st
 	}
+	if c.Font2Seed != 0 {
+		if c.Font2W != 0 {
+			if c.Font2W < 8 || c.Font2W > 16 || (c.Font2W+7)/8 != m.bpr {
+				return vlib.Failf("VERIF-HARNESS second font: width %d does not keep %d bytes per glyph row", c.Font2W, m.bpr), st
+			}
+			m.gw = c.Font2W
+			m.cols = c.Width / m.gw
+		}
+		fg := &c19Stream{s: c.Font2Seed}
+		for i := range m.font {
+			m.font[i] = fg.next()
+		}
+		geo += fmt.Sprintf(", then a second font %dx%d", m.gw, m.gh)
+		if f := runOps(c.Ops, "after the font was replaced by another of the same size, "); f != nil {
+			return f, st
+		}
+	}
 	if len(c.PostOps) > 0 {
 		buf2, page2, err := c19SecondBuffer(m.n)
 		if err != nil {
@@ -657,6 +680,16 @@ func c19GenFb(t *rapid.T, allowEmptyGrid bool, excluded func()) c19FbCase {
 	if c.Logo != nil && rapid.IntRange(0, 3).Draw(t, "drawbeforelogo") == 0 {
 		c.PreOps = rapid.SliceOfN(c19GenOp(c.Width/c.GlyphW, c.Height/c.GlyphH, special, mults), 1, 6).Draw(t, "preops")
 	}
+	if rapid.IntRange(0, 5).Draw(t, "secondfont") == 0 {
+		c.Font2Seed = rapid.Uint64Min(1).Draw(t, "font2-seed")
+		if rapid.Bool().Draw(t, "font2-otherwidth") {
+			lo, hi := uint32(8), uint32(8)
+			if c.GlyphW > 8 {
+				lo, hi = 9, 16
+			}
+			c.Font2W = rapid.Uint32Range(lo, hi).Draw(t, "font2-w")
+		}
+	}
 	if rapid.IntRange(0, 7).Draw(t, "reinit") == 0 {
 		c.PostOps = rapid.SliceOfN(c19GenOp(c.Width/c.GlyphW, gridRows, special, mults), 1, 6).Draw(t, "postops")
 	}
@@ -678,6 +711,7 @@ func c19FbLabels(c c19FbCase, st c19OpStats) (bool, []string) {
 	add(c.ViaBoot, "created-from-boot-information")
 	add(len(c.PreOps) > 0, "drawn-on-before-the-logo-is-installed")
 	add(len(c.PostOps) > 0, "driver-initialised-a-second-time")
+	add(c.Font2Seed != 0, "font-replaced-by-another-of-the-same-size-then-drawn-again")
 	add(c.Bpp != 8 && c.RPos < c.BPos, "layout-bgr")
 	add(c.Bpp == 16 && c.GSize == 5, "depth=16-with-555-masks")
 	add(c.Width%c.GlyphW != 0, "right-remainder-strip")
